@@ -740,7 +740,7 @@ class _ClientGen:
             was_canon = j in self.live["canon"]
             if inplace:
                 self._retire(j)
-            return self._add({"op": "edit", "arg": j, "how": r.choice(["chg", "bond", "coords", "all"]), "x": r.randrange(1000), "inplace": inplace}, "graph", canon=was_canon)
+            return self._add({"op": "edit", "arg": j, "how": r.choice(["chg", "bond", "coords", "all", "all", "del_atom"]), "x": r.randrange(1000), "inplace": inplace}, "graph", canon=was_canon)
         if k == "mutate":
             j = r.choice(g)
             self._retire(j)
@@ -863,6 +863,9 @@ def gen_spec(run_seed, prop, pool, hashseeds, knobs=None):
     # warm-up pre-history
     u = rng.random()
     nw = 0 if (u < 0.4 or storm and u < 0.8) else _loguniform(rng, 1, knobs.get("max_warmup", 40))
+    if u > 0.96:
+        # a long process history (size-bounded caches, counters): hundreds of earlier calls
+        nw = rng.randint(150, knobs.get("max_long_history", 500))
     warm = []
     if nw:
         wc = _ClientGen(Random(H(run_seed, "warm")), "C14", "A", rng.sample(pool.mol_valid, min(4, len(pool.mol_valid))), [rng.choice(all_strs) for _ in range(6)] if all_strs else [], bad, [], False)
